@@ -102,6 +102,8 @@ From Setec Require Props.Chain_Front.
 Print Assumptions Chain_Front.Chain_front_requires_grant.
 Print Assumptions Chain_Front.Chain_front_refusal_blind.
 Print Assumptions Chain_Front.Chain_reject_status.
+Print Assumptions Chain_Front.Chain_front_value_logged.
+Print Assumptions Chain_Front.Chain_front_denial_logged.
 
 (* non-vacuity *)
 Definition su_rules := [ {| r_actions := [AGet; AInfo; APut; AActivate; ADelete]; r_secrets := [[42]] |} ].
